@@ -39,9 +39,10 @@ Bind(r) ==
     /\ clock' = r.st.clock
     /\ timers' = ToSet(r.st.timers)
     /\ status' = [n \in Nodes |-> r.st.status[n]]
-    /\ queued' = [n \in Nodes |-> r.st.nque[n] > 0]
     /\ todo' = [n \in Nodes |-> ToSet(r.st.todo[n])]
     /\ exec' = [n \in Nodes |-> ToSet(r.st.exec[n])]
+    \* queued = in schedule.que WITH work; an entry left behind without work is C04's business, not an exemption here
+    /\ queued' = [n \in Nodes |-> r.st.nque[n] > 0 /\ (todo'[n] # {} \/ exec'[n] # {})]
     /\ targets' = ToSet(r.st.targets)
     /\ booted' = IF up' THEN UNION { { <<n, e>> : e \in BootEv(n) } : n \in Nodes } ELSE {}
     /\ env' = IF r.ev \in {"Tick", "Advance", "NewTarget"} THEN env - 1 ELSE env
@@ -75,8 +76,9 @@ TraceInit ==
     /\ \A n \in Nodes : TimedEv(n) \subseteq Specs
     /\ LET r == Rec(tid, 1) IN
        /\ up = r.st.up /\ clock = r.st.clock /\ timers = ToSet(r.st.timers)
-       /\ status = [n \in Nodes |-> r.st.status[n]] /\ queued = [n \in Nodes |-> r.st.nque[n] > 0]
+       /\ status = [n \in Nodes |-> r.st.status[n]]
        /\ todo = [n \in Nodes |-> ToSet(r.st.todo[n])] /\ exec = [n \in Nodes |-> ToSet(r.st.exec[n])]
+       /\ queued = [n \in Nodes |-> r.st.nque[n] > 0 /\ (todo[n] # {} \/ exec[n] # {})]
        /\ targets = ToSet(r.st.targets)
     /\ booted = {} /\ lastFire = [n \in Nodes |-> -1] /\ env = 1000000
     /\ served = [n \in Nodes |-> [e \in Ev(n) |-> -1]]
